@@ -13,6 +13,7 @@ import (
 	"strings"
 	"sync"
 	"time"
+	"unicode/utf8"
 
 	"github.com/scrapli/scrapligo/driver/generic"
 	"github.com/scrapli/scrapligo/driver/opoptions"
@@ -43,6 +44,7 @@ type CB struct {
 // Desc is a complete case descriptor.
 type Desc struct {
 	Family      string              `json:"family"`
+	Script      string              `json:"script,omitempty"` // alphabet of keywords and filler (informational)
 	Hint        string              `json:"hint"`              // what the generator aimed at (informational only)
 	Opening     string              `json:"opening,omitempty"` // emitted by the device at open
 	Input       string              `json:"input"`
@@ -57,6 +59,9 @@ type Desc struct {
 	ReadDelayUs int                 `json:"read_delay_us"`
 	// Repeat > 0 (silent device only): the same operation is issued Repeat more times with
 	// RepeatMs as timeout; each must end with the timeout error and run nothing.
+	// Rounds > 1 (Input non-empty): after an operation that completed, the same operation is issued
+	// again with the very same callback objects; the device restarts its script on the input line.
+	Rounds   int `json:"rounds,omitempty"`
 	Repeat   int `json:"repeat,omitempty"`
 	RepeatMs int `json:"repeat_ms,omitempty"`
 }
@@ -87,6 +92,9 @@ func (v *device) Input(c *devsim.Conn, b []byte) {
 		}
 		line := string(v.buf[:i])
 		v.buf = v.buf[i+1:]
+		if v.d.Rounds > 1 && line == v.d.Input && v.lines > 0 {
+			v.seen, v.lines = map[string]int{}, 0 // next round: the script starts over
+		}
 		v.lines++
 		if v.lines > v.d.MaxLines {
 			continue // budget exhausted: silent
@@ -112,9 +120,11 @@ func (v *device) Input(c *devsim.Conn, b []byte) {
 
 // refTrigger is the statement's trigger predicate: the output contains the text
 // (case-insensitively unless disabled) or matches the pattern, and does not contain the
-// not-contains text. Under insensitivity the pattern is matched with the (?i) flag against the
-// original output (the library lower-cases the output instead: equivalent for patterns written in
-// lower case or carrying their own flag, which is what the quantifier admits).
+// not-contains text. "Case-insensitively" is the obvious reading: output and text are compared
+// after lower-casing both with the Unicode simple case mapping; a pattern (written in lower case
+// or carrying its own flag, which is what the quantifier admits) is matched against the lower-cased
+// output. No folding beyond that mapping is assumed (the generator's alphabet excludes letters
+// such as sharp s, final sigma, dotless i for which other readings exist).
 type refTrigger struct {
 	contains, notContains string
 	re                    *regexp.Regexp
@@ -124,11 +134,7 @@ type refTrigger struct {
 func mkTrigger(cb CB) (refTrigger, error) {
 	t := refTrigger{contains: cb.Contains, notContains: cb.NotContains, insens: !cb.Sensitive}
 	if cb.Re != "" {
-		src := cb.Re
-		if t.insens {
-			src = "(?i)" + src
-		}
-		re, err := regexp.Compile(src)
+		re, err := regexp.Compile(cb.Re)
 		if err != nil {
 			return t, err
 		}
@@ -147,7 +153,49 @@ func (t refTrigger) positive(out string) bool {
 			return true
 		}
 	}
-	return t.re != nil && t.re.MatchString(out)
+	if t.re == nil {
+		return false
+	}
+	if t.insens {
+		return t.re.MatchString(strings.ToLower(out))
+	}
+	return t.re.MatchString(out)
+}
+
+func asciiLower(s string) string {
+	b := []byte(s)
+	for i, c := range b {
+		if 'A' <= c && c <= 'Z' {
+			b[i] = c + 'a' - 'A'
+		}
+	}
+	return string(b)
+}
+
+// holdsASCIIOnly is NOT part of the oracle: it says what the verdict would be if only A-Z were
+// lower-cased in the output, so that the evidence can count the boundaries at which the case
+// mapping of non-ASCII letters decided.
+func (t refTrigger) holdsASCIIOnly(out string) (holds, excluded bool) {
+	if !t.insens {
+		return t.holds(out), t.excluded(out)
+	}
+	x := asciiLower(out)
+	pos := t.contains != "" && strings.Contains(x, strings.ToLower(t.contains)) || t.re != nil && t.re.MatchString(x)
+	excluded = t.notContains != "" && strings.Contains(x, strings.ToLower(t.notContains))
+	return pos && !excluded, excluded
+}
+
+func nonASCII(s string) bool {
+	for i := 0; i < len(s); i++ {
+		if s[i] >= 0x80 {
+			return true
+		}
+	}
+	return false
+}
+
+func (cb CB) nonASCIITrigger() bool {
+	return !cb.Sensitive && (nonASCII(cb.Contains) || nonASCII(cb.Re) || nonASCII(cb.NotContains))
 }
 
 func (t refTrigger) excluded(out string) bool {
@@ -321,36 +369,63 @@ func runOnce(d Desc) (mon.Result, bool) {
 	}
 
 	timeout := time.Duration(d.TimeoutMs) * time.Millisecond
-	t0 := time.Now()
-	// called in this goroutine: a panic in the caller's goroutine is recovered by mon.RunOne
-	resp, opErr := drv.SendWithCallbacks(d.Input, cbs, timeout)
-	tEnd := time.Now()
-
-	log := conn.Log()
-	rec.mu.Lock()
-	firings := append([]firing(nil), rec.firings...)
-	readT := append([]time.Time(nil), rec.readT...)
-	rec.mu.Unlock()
-
-	j := &judge{d: &d, trigs: trigs, firings: firings, readT: readT, t0: t0, tEnd: tEnd, tCase: tCase,
+	j := &judge{d: &d, trigs: trigs, tCase: tCase, fired: map[int]int{},
 		obs: map[string]int64{"cases": 1}, tags: map[string]bool{}}
-	for _, e := range log {
-		if e.Kind == "read" {
-			j.chunks = append(j.chunks, e.Data)
+	for _, cb := range d.CBs {
+		if cb.nonASCIITrigger() {
+			j.obs["non_ascii_trigger_cases"]++
+			break
 		}
 	}
-	if len(j.chunks) > len(readT) {
-		j.chunks = j.chunks[:len(readT)]
+	rounds := d.Rounds
+	if rounds < 1 || d.Input == "" {
+		rounds = 1
 	}
-	res := j.judge(resp != nil, func() string {
+	var res mon.Result
+	var opErr error
+	for round := 0; round < rounds; round++ {
+		rec.mu.Lock()
+		nBefore := len(rec.firings)
+		rec.mu.Unlock()
+		t0 := time.Now()
+		// called in this goroutine: a panic in the caller's goroutine is recovered by mon.RunOne
+		resp, err := drv.SendWithCallbacks(d.Input, cbs, timeout)
+		tEnd := time.Now()
+		opErr = err
+
+		log := conn.Log()
+		rec.mu.Lock()
+		firings := append([]firing(nil), rec.firings[nBefore:]...)
+		readT := append([]time.Time(nil), rec.readT...)
+		rec.mu.Unlock()
+
+		j.firings, j.readT, j.t0, j.tEnd = firings, readT, t0, tEnd
+		j.chunks = j.chunks[:0]
+		for _, e := range log {
+			if e.Kind == "read" {
+				j.chunks = append(j.chunks, e.Data)
+			}
+		}
+		if len(j.chunks) > len(readT) {
+			j.chunks = j.chunks[:len(readT)]
+		}
+		result := ""
 		if resp != nil {
-			return resp.Result
+			result = resp.Result
 		}
-		return ""
-	}(), opErr)
-	if res.Verdict == mon.Violated {
-		res.Events = map[string]interface{}{"firings": clipFirings(firings), "chunks": clipChunks(j.chunks), "transport": tail(log, 40),
-			"error": fmt.Sprint(opErr)}
+		res = j.judge(resp != nil, result, opErr)
+		if res.Verdict == mon.Violated {
+			res.Events = map[string]interface{}{"round": round, "first_chunk_of_round": j.base, "firings": clipFirings(firings), "chunks": clipChunks(j.chunks),
+				"transport": tail(log, 40), "error": fmt.Sprint(opErr)}
+		}
+		if res.Verdict != mon.Held || opErr != nil {
+			break
+		}
+		if round > 0 {
+			j.obs["operations_reusing_the_callback_objects"]++
+			j.tags["callback-objects-reused-by-a-later-operation"] = true
+		}
+		j.base = j.completeAt // the next operation starts with whatever this one left in the queue
 	}
 	if res.Verdict == mon.Held && d.Repeat > 0 && len(j.chunks) == 0 && errors.Is(opErr, util.ErrTimeoutError) {
 		// burst of timeouts on a silent device: many expiries per case, each racing with the reader's exit
@@ -403,18 +478,35 @@ type judge struct {
 
 	nontrivial bool
 	timing     bool // the violation returned rests on the wall clock
+
+	// across the operations of one session
+	base       int         // chunk boundary at which the current operation's chunks start
+	fired      map[int]int // how often each callback object has run
+	completeAt int
 }
 
 type evalRes struct {
 	first      int // first callback in list order whose trigger holds, -1 if none
 	holding    int
 	suppressed bool // some callback's positive part held but its not-contains text was present
+	// evidence only: the verdict of some callback would differ if only A-Z were lower-cased
+	caseMappingDecided, vetoNeedsMapping, splitLetter bool
 }
 
 func (j *judge) eval(a, k int) evalRes {
 	out := j.full[j.cum[a]:j.cum[k]]
 	r := evalRes{first: -1}
+	r.splitLetter = !utf8.ValidString(out)
 	for i, t := range j.trigs {
+		if t.insens && nonASCII(out) {
+			h, x := t.holdsASCIIOnly(out)
+			if h != t.holds(out) {
+				r.caseMappingDecided = true
+			}
+			if t.positive(out) && t.excluded(out) && !x {
+				r.vetoNeedsMapping = true
+			}
+		}
 		if t.positive(out) {
 			if t.excluded(out) {
 				r.suppressed = true
@@ -451,6 +543,18 @@ func (j *judge) noteEval(r evalRes) {
 		j.obs["boundaries_with_several_triggers_true"]++
 		j.tags["several-triggers-true-at-once"] = true
 		j.nontrivial = true
+	}
+	if r.caseMappingDecided {
+		j.obs["boundaries_where_non_ascii_case_mapping_decided"]++
+		j.tags["non-ascii-case-mapping-decided-a-trigger"] = true
+		j.nontrivial = true
+	}
+	if r.vetoNeedsMapping {
+		j.obs["not_contains_vetoes_needing_non_ascii_case_mapping"]++
+		j.tags["non-ascii-case-mapping-decided-a-not-contains-veto"] = true
+	}
+	if r.splitLetter {
+		j.obs["boundaries_inside_a_multibyte_letter"]++
 	}
 	if r.suppressed {
 		j.obs["boundaries_where_not_contains_suppressed"]++
@@ -512,12 +616,17 @@ func (j *judge) judge(haveResp bool, result string, opErr error) mon.Result {
 		j.cum[k+1] = j.cum[k] + len(c)
 	}
 	n := len(j.chunks)
-	j.obs["chunks"] += int64(n)
+	if j.base > n {
+		return j.bad("c18/harness-chunk-log", "chunk log shrank")
+	}
+	j.obs["chunks"] += int64(n - j.base)
 	j.obs["firings"] += int64(len(j.firings))
 
-	a, e := 0, 0
-	fired := map[int]int{}
+	a, e := j.base, j.base
+	fired := j.fired
 	completeAt := -1
+	j.completeAt = -1
+	opStart := j.cum[j.base]
 	tLoop := j.t0
 	tFinal := []int{d.TimeoutMs}
 	lastNT := 0
@@ -563,6 +672,13 @@ func (j *judge) judge(haveResp bool, result string, opErr error) mon.Result {
 		}
 		fired[f.Idx]++
 		j.noteFired(cb, e2 == e && fi > 0)
+		if cb.nonASCIITrigger() {
+			j.obs["firings_of_insensitive_non_ascii_triggers"]++
+			if h, _ := j.trigs[f.Idx].holdsASCIIOnly(out); !h {
+				j.obs["firings_needing_non_ascii_case_mapping"]++
+				j.tags["fired:needs-non-ascii-case-mapping"] = true
+			}
+		}
 		if cb.Complete {
 			completeAt = e2
 		}
@@ -591,10 +707,10 @@ func (j *judge) judge(haveResp bool, result string, opErr error) mon.Result {
 		}
 		if completeAt < 0 {
 			// only a complete callback without a function can have ended the operation
-			if !strings.HasPrefix(j.full, result) {
-				return j.bad("c18/result-mismatch", "result %q is not a prefix of the chunks of the operation %q", clip(result), clip(j.full))
+			if !strings.HasPrefix(j.full[opStart:], result) {
+				return j.bad("c18/result-mismatch", "result %q is not a prefix of the chunks of the operation %q", clip(result), clip(j.full[opStart:]))
 			}
-			e2 := j.boundary(len(result))
+			e2 := j.boundary(opStart + len(result))
 			if e2 < 0 || e2 < e {
 				return j.bad("c18/result-mismatch", "result %q does not end at a chunk boundary at or after the last firing (boundary %d)", clip(result), e)
 			}
@@ -612,11 +728,12 @@ func (j *judge) judge(haveResp bool, result string, opErr error) mon.Result {
 			j.tags["completed-by-callback-without-function"] = true
 			completeAt = e2
 		}
-		if want := j.full[:j.cum[completeAt]]; result != want {
+		j.completeAt = completeAt
+		if want := j.full[opStart:j.cum[completeAt]]; result != want {
 			return j.bad("c18/result-mismatch", "result differs from all chunks of the operation up to the completing firing\n got: %q\nwant: %q", clip(result), clip(want))
 		}
 		j.obs["completed"]++
-		if a > 0 {
+		if a > j.base {
 			j.obs["completed_after_a_reset"]++
 		}
 	case errors.Is(opErr, util.ErrTimeoutError):
@@ -725,6 +842,9 @@ func (j *judge) judge(haveResp bool, result string, opErr error) mon.Result {
 	}
 	j.tags[fmt.Sprintf("firings=%d%s", nf, map[bool]string{true: "+"}[nf == 5])] = true
 	j.tags["seg="+d.Seg.Mode] = true
+	if d.Script != "" {
+		j.tags["script="+d.Script] = true
+	}
 	j.tags[fmt.Sprintf("callbacks=%d", len(d.CBs))] = true
 	if outcome != d.Hint && d.Hint != "any" {
 		j.obs["outcome_differs_from_generator_hint"]++
